@@ -209,13 +209,6 @@ Proof.
   intros Hi. apply zmem_In in Hi. congruence.
 Qed.
 
-Lemma sorted_nodup_strict l : Sorted Z.le l -> NoDup l -> StronglySorted Z.lt l.
-Proof.
-  intros Hs Hn. apply Sorted_StronglySorted in Hs; [|intros a b c; lia].
-  induction l as [|x l IH]; [constructor|]. apply StronglySorted_inv in Hs. destruct Hs as (Hs & Hle).
-  apply NoDup_cons_iff in Hn. destruct Hn as (Hx & Hn). constructor; [apply IH; assumption|].
-  rewrite Forall_forall in *. intros y Hy. specialize (Hle y Hy). assert (y <> x) by (intros ->; contradiction). lia.
-Qed.
 
 (* ids of a packable message: 0, 1, then the data elements in strictly ascending order *)
 Lemma packable_ids_shape present : NoDup present -> zmem 0 present = true -> (forall id, zmem id present = true -> 0 <= id) ->
@@ -278,19 +271,19 @@ Definition msg_equiv (S : mspec) (m m2 : mstate) : Prop :=
      exists s x y, zlookup id (ms_fields S) = Some s /\ zlookup id (m_fields m) = Some x /\ zlookup id (m_fields m2) = Some y /\
                    equiv s x y /\ pack_f s y = pack_f s x).
 
-Lemma zlookup_reset S present fields id : zlookup id (reset_fields S present fields) =
+Lemma zlookup_reset S failed present fields id : zlookup id (reset_fields S failed present fields) =
   match zlookup id fields with
   | None => None
-  | Some st => Some (if zmem id present then match zlookup id (ms_fields S) with Some s => fresh s | None => st end else st)
+  | Some st => Some (if zmem id present || bytes_eqb (itoa id) failed then match zlookup id (ms_fields S) with Some s => fresh s | None => st end else st)
   end.
 Proof.
   unfold reset_fields. induction fields as [|(k, v) r IH]; [reflexivity|]. cbn [map fst].
   destruct (id =? k) eqn:E.
   - assert (k = id) by lia. subst k. cbn [zlookup]. rewrite E.
-    destruct (zmem id present); [|cbn [zlookup]; rewrite E; reflexivity].
+    destruct (zmem id present || bytes_eqb (itoa id) failed); [|cbn [zlookup]; rewrite E; reflexivity].
     destruct (zlookup id (ms_fields S)); cbn [zlookup]; rewrite E; reflexivity.
   - cbn [zlookup]. rewrite E. rewrite <- IH.
-    destruct (zmem k present); [destruct (zlookup k (ms_fields S))|]; cbn [zlookup]; rewrite E; reflexivity.
+    destruct (zmem k present || bytes_eqb (itoa k) failed); [destruct (zlookup k (ms_fields S))|]; cbn [zlookup]; rewrite E; reflexivity.
 Qed.
 
 Lemma bits_inv_new b : 1 <= bm_len b -> bits_inv b (bm_new b) 1 [].
@@ -340,7 +333,7 @@ Proof.
   assert (b = mtib ++ bmb ++ body) by congruence. subst b. clear Hpk.
   cbn [with_bm m_mti] in Emti. rewrite Hb1 in Emti. cbn [pack_f] in Emti.
   (* unpack *)
-  unfold m_unpack. cbv zeta. set (m0r := with_fields m0 (reset_fields S (m_present m0) (m_fields m0))).
+  unfold m_unpack. cbv zeta. set (m0r := with_failed (with_fields m0 (reset_fields S (m_failed m0) (m_present m0) (m_fields m0))) []).
   set (m1 := with_bm (m_bitmap S (with_present m0r [])) (bm_new (ms_bm S))).
   cbn [unpack_f]. rewrite <- !app_assoc.
   rewrite (prim_roundtrip (ms_mti S) (m_mti m) mtib Hmti Hmtidom Emti (m_mti m1) (bmb ++ body ++ rest)).
@@ -350,7 +343,7 @@ Proof.
   2:{ intros i Hi. apply zmem_In in Hi. apply filter_In in Hi. destruct Hi as (_ & Hi). apply Bool.negb_true_iff, Bool.orb_false_iff in Hi. destruct Hi as (Hi1 & Hi2). split; [lia|exact Hi2]. }
   2:{ exact Ebm. }
   cbn [with_bm with_present m_present m_fields m_mti m_bm m_bmcached].
-  assert (Hm1f : m_fields m1 = reset_fields S (m_present m0) (m_fields m0)) by (unfold m1, m_bitmap; destruct (m_bmcached (with_present m0r [])); reflexivity).
+  assert (Hm1f : m_fields m1 = reset_fields S (m_failed m0) (m_present m0) (m_fields m0)) by (unfold m1, m_bitmap; destruct (m_bmcached (with_present m0r [])); reflexivity).
   destruct Hinv as (Hk' & Hlen' & Hbits').
   assert (HN : 8 <= zlen bm * 8) by nia.
   destruct (unpack_fields_rt S bm (with_bm mb bm) rest (Z.to_nat (zlen bm * 8 - 1)) 2 l body) with
@@ -370,7 +363,7 @@ Proof.
   - rewrite <- !app_assoc. reflexivity.
   - zlens. lia.
   - rewrite Hm1f. intros id s Hs. destruct (Hsh id s Hs) as (st & Hst & Hshaped). rewrite zlookup_reset, Hst. eexists. split; [reflexivity|].
-    destruct (zmem id (m_present m0)); [|exact Hshaped]. rewrite Hs. apply fresh_shaped. apply (Hcoh id s Hs).
+    destruct (zmem id (m_present m0) || bytes_eqb (itoa id) (m_failed m0)); [|exact Hshaped]. rewrite Hs. apply fresh_shaped. apply (Hcoh id s Hs).
   - change (m_fields (with_mti m1 (m_mti m))) with (m_fields m1). rewrite Hun. eexists. split; [f_equal; f_equal; zlens; lia|].
     unfold msg_equiv, with_fields, with_present, with_bm, with_mti. cbn [m_mti m_bm m_present m_fields].
     assert (Hpre : forall id, zmem id (zadd 1 (zadd 0 (m_present m1))) = (id =? 1) || (id =? 0)).
@@ -386,4 +379,82 @@ Proof.
     + rewrite Hp1, Hpre. reflexivity.
     + intros id H2 Hm. assert (Hin : In id l) by (apply Hl; split; assumption).
       destruct (Hp2 id Hin) as (s & x & y & Hs & Hx & Hy & Heq & Hpk & _). exists s, x, y. repeat split; assumption.
+Qed.
+
+(* ---------------- packing the unpacked message returns the identical bytes ---------------- *)
+Lemma unpack_fields_nodup S bm : forall fuel i src off present fields, NoDup present ->
+  NoDup (fst (fst (unpack_fields fuel S bm i src off present fields))).
+Proof.
+  induction fuel as [|f IH]; intros i src off present fields Hnd; [exact Hnd|]. cbn [unpack_fields].
+  destruct (bm_is_presence_bit (ms_bm S) i); [apply IH; exact Hnd|]. destruct (bm_isset bm i); [|apply IH; exact Hnd].
+  destruct (zlookup i (ms_fields S)) as [s|]; [|exact Hnd]. destruct (zlookup i fields) as [st|]; [|exact Hnd].
+  destruct (unpack_f s st (zdrop off src)) as [st' [read|pth e|q|]]; cbn [fst]; try exact Hnd. apply IH. apply NoDup_zadd. exact Hnd.
+Qed.
+
+Lemma m_unpack_shape S m0 d : m_bmcached (fst (m_unpack S m0 d)) = true /\ NoDup (m_present (fst (m_unpack S m0 d))).
+Proof.
+  unfold m_unpack. cbv zeta.
+  set (a := with_bm (m_bitmap S (with_present (with_failed (with_fields m0 (reset_fields S (m_failed m0) (m_present m0) (m_fields m0))) []) [])) (bm_new (ms_bm S))).
+  assert (Ha : m_bmcached a = true /\ NoDup (m_present a)).
+  { unfold a, m_bitmap, with_present, with_fields, with_bm; cbn [m_bmcached m_present]. destruct (m_bmcached m0); cbn [m_bmcached m_present]; (split; [reflexivity|]).
+    - constructor. - apply NoDup_zadd. constructor. }
+  destruct Ha as (Hc & Hn).
+  destruct (unpack_f (FPrim (ms_mti S)) (m_mti a) d) as [mt [read|pth e|q|]]; cbn [fst with_mti m_bmcached m_present]; try (split; assumption).
+  cbn [with_present with_mti with_bm with_fields m_bm m_present m_fields m_mti m_bmcached].
+  destruct (bm_unpack (ms_bm S) (m_bm a) (zdrop read d)) as [bm [r2|e|q|]]; cbn [fst with_bm with_present m_bmcached m_present];
+    try (split; [exact Hc|apply NoDup_zadd; exact Hn]).
+  pose proof (unpack_fields_nodup S bm (Z.to_nat (zlen bm * 8 - 1)) 2 d (read + r2) (zadd 1 (zadd 0 (m_present a))) (m_fields a)
+                (NoDup_zadd _ _ (NoDup_zadd _ _ Hn))) as Hnd.
+  destruct (unpack_fields (Z.to_nat (zlen bm * 8 - 1)) S bm 2 d (read + r2) (zadd 1 (zadd 0 (m_present a))) (m_fields a)) as [[p f] u].
+  cbn [fst with_fields with_present m_bmcached m_present] in *. split; [exact Hc|exact Hnd].
+Qed.
+
+Lemma pack_ids_congr S ma mb bm : m_mti ma = m_mti mb -> forall ids,
+  (forall id, In id ids -> 2 <= id -> bm_is_presence_bit (ms_bm S) id = false ->
+     exists s x y, zlookup id (ms_fields S) = Some s /\ zlookup id (m_fields ma) = Some x /\ zlookup id (m_fields mb) = Some y /\ pack_f s y = pack_f s x) ->
+  (forall id, In id ids -> 0 <= id) ->
+  pack_ids S mb bm ids = pack_ids S ma bm ids.
+Proof.
+  intros Hmti. induction ids as [|i rest IH]; intros Hf Hpos; [reflexivity|]. cbn [pack_ids].
+  rewrite IH by (intros; first [apply Hf; [right|..]|apply Hpos; right]; assumption).
+  destruct (negb (i =? 1) && bm_is_presence_bit (ms_bm S) i) eqn:Esk; [reflexivity|].
+  destruct (i =? 0) eqn:E0; [rewrite Hmti; reflexivity|]. destruct (i =? 1) eqn:E1; [reflexivity|].
+  cbn [negb andb] in Esk. specialize (Hpos i (or_introl eq_refl)).
+  destruct (Hf i (or_introl eq_refl) ltac:(lia) Esk) as (s & x & y & Hs & Hx & Hy & Hp). rewrite Hs, Hx, Hy, Hp. reflexivity.
+Qed.
+
+Lemma nodup_same_members_perm (l1 l2 : list Z) : NoDup l1 -> NoDup l2 -> (forall k, zmem k l1 = zmem k l2) -> Permutation l1 l2.
+Proof.
+  intros H1 H2 Hm. apply NoDup_Permutation; [exact H1|exact H2|]. intros k. rewrite <- !zmem_In, Hm. reflexivity.
+Qed.
+
+Theorem message_repack S m m' b : msg_coherent S -> msg_in_dom S m -> m_pack S m = (m', Ok b) ->
+  forall m0 rest, msg_shaped S m0 -> snd (m_pack S (fst (m_unpack S m0 (b ++ rest)))) = Ok b.
+Proof.
+  intros Hcoh Hdom Hp m0 rest Hsh.
+  destruct (message_roundtrip S m m' b Hcoh Hdom Hp m0 rest Hsh) as (m2 & Hun & Heq).
+  destruct (m_unpack_shape S m0 (b ++ rest)) as (Hcached & Hnd2). rewrite Hun in *. cbn [fst] in *.
+  destruct Hcoh as (Hmti & Ha & HB & He & (f & Hpf) & Hcs). destruct Hdom as (Hnd & H0 & Hmtidom & Hd).
+  destruct Heq as (Emti & Ebm & Epres & E1 & Efields).
+  unfold m_pack in Hp. destruct (m_bitmap_content S m) as (Hb1 & Hb2 & Hb3). set (mb := m_bitmap S m) in *.
+  destruct (set_bits (ms_bm S) (packable_ids mb) (bm_new (ms_bm S))) as [bm [u|e|p|]] eqn:Es; try (inversion Hp; fail).
+  destruct u. cbv zeta in Hp. injection Hp as Hm' Hpk. subst m'. cbn [with_bm m_mti m_bm m_present m_fields] in *.
+  assert (Hndb : NoDup (m_present mb)) by (unfold mb, m_bitmap; destruct (m_bmcached m); [exact Hnd|cbn; apply NoDup_zadd; exact Hnd]).
+  (* the same ids *)
+  assert (Hids : packable_ids m2 = packable_ids mb).
+  { unfold packable_ids. apply sort_z_perm. apply perm_skip. apply nodup_same_members_perm.
+    - apply NoDup_filter. exact Hnd2.
+    - apply NoDup_filter. exact Hndb.
+    - intros k. destruct (Z.eq_dec k 1) as [->|Hne]; [rewrite !zmem_zremove_same; reflexivity|]. rewrite !zmem_zremove by lia. apply Epres. exact Hne. }
+  unfold m_pack. assert (Hb2' : m_bitmap S m2 = m2) by (unfold m_bitmap; rewrite Hcached; reflexivity). rewrite Hb2', Hids, Es. cbv zeta. cbn [snd].
+  rewrite <- Hpk. apply pack_ids_congr.
+  - cbn [with_bm m_mti]. symmetry. exact Emti.
+  - intros id Hin H2 Hpb. cbn [with_bm m_fields].
+    assert (Hm : zmem id (m_present mb) = true).
+    { unfold packable_ids in Hin. apply (Permutation_in _ (Permutation_sym (sort_z_is_perm _))) in Hin. destruct Hin as [Hin|Hin]; [lia|].
+      apply zmem_In in Hin. rewrite zmem_zremove in Hin by lia. exact Hin. }
+    destruct (Efields id H2 Hm) as (s & x & y & Hs & Hx & Hy & _ & Hpack). exists s, x, y. repeat split; assumption.
+  - intros id Hin. unfold packable_ids in Hin. apply (Permutation_in _ (Permutation_sym (sort_z_is_perm _))) in Hin. destruct Hin as [Hin|Hin]; [lia|].
+    apply zmem_In in Hin. destruct (Z.eq_dec id 1) as [->|Hne]; [lia|]. rewrite zmem_zremove in Hin by lia. rewrite Hb3 in Hin by exact Hne.
+    destruct (Hd id Hin) as [->|[->|(H2 & _)]]; lia.
 Qed.
